@@ -80,3 +80,57 @@ package quickfix
 
 //@ lemma wdec_ext [C10,C14]: induction n: forall n int, a1 int, p1 int, a2 int, p2 int :: (forall j :: p1 <= j && j < p1+n ==> old(bcell(a1, j)) == bcell(a2, j-p1+p2)) ==> old(wdec(a1, p1, n)) == wdec(a2, p2, n)
 //@ lemma bsum_ext [C10]: induction n: forall n int, a1 int, p1 int, a2 int, p2 int :: (forall j :: p1 <= j && j < p1+n ==> old(bcell(a1, j)) == bcell(a2, j-p1+p2)) ==> old(bsum(a1, p1, n)) == bsum(a2, p2, n)
+
+// ---- value types (C14) -----------------------------------------------------------------
+
+//@ func (f *FIXBoolean) Read [C09,C14]
+//@   ensures @accept (result == nil) <==> (len(bytes) == 1 && (bytes[0] == 89 || bytes[0] == 78))
+//@   ensures @value result == nil ==> (*f <==> bytes[0] == 89)
+//@   ensures @keep result != nil ==> (*f <==> old(*f))
+//@   modifies f
+
+//@ func (f FIXBoolean) Write [C14]
+//@   ensures @text len(result) == 1 && result[0] == (f ? 89 : 78)
+//@   ensures @fresh fresh(result)
+//@   modifies fresh E.byte
+
+//@ func (f *FIXString) Read [C09,C14]
+//@   ensures @ok err == nil
+//@   ensures @value len(*f) == len(bytes) && (forall i :: 0 <= i && i < len(bytes) ==> (*f)[i] == bytes[i])
+//@   modifies f
+
+//@ func (f FIXString) Write [C14]
+//@   ensures @value len(result) == len(f) && (forall i :: 0 <= i && i < len(f) ==> result[i] == f[i])
+//@   modifies fresh E.byte
+
+//@ func (f *FIXBytes) Read [C09,C14]
+//@   ensures @ok err == nil
+//@   ensures @value *f == bytes
+//@   modifies f
+
+//@ func (f FIXBytes) Write [C14]
+//@   ensures @value result == f
+
+//@ func isDecimal [C14]
+//@   ensures result <==> (48 <= b && b <= 57)
+
+//@ spec floatalphaTo(d []byte, k int) bool = forall i :: 0 <= i && i < k ==> (d[i] == 46 || d[i] == 45 || (48 <= d[i] && d[i] <= 57))
+//@ spec floatalpha(d []byte) bool = floatalphaTo(d, len(d))
+//@ func (f *FIXFloat) Read [C09,C14]
+//@   ensures @accept (result == nil) <==> (floatalpha(bytes) && pfok(string(bytes)))
+//@   loop 1 invariant @alpha floatalphaTo(bytes, $i+1)
+//@   loop 1 decreases len(bytes) - $i
+//@   modifies f
+
+// FIX UTCTimestamp grammar: YYYYMMDD-HH:MM:SS[.sss[sss[sss]]] by position
+//@ spec bdig(d []byte, i int) bool = 48 <= d[i] && d[i] <= 57
+//@ spec tsprefixb(d []byte) bool = bdig(d,0) && bdig(d,1) && bdig(d,2) && bdig(d,3) && bdig(d,4) && bdig(d,5) && bdig(d,6) && bdig(d,7) && d[8] == 45 && bdig(d,9) && bdig(d,10) && d[11] == 58 && bdig(d,12) && bdig(d,13) && d[14] == 58 && bdig(d,15) && bdig(d,16)
+//@ spec tsgrammar(d []byte) bool = (len(d) == 17 || len(d) == 21 || len(d) == 24 || len(d) == 27) && tsprefixb(d) && (len(d) > 17 ==> d[17] == 46 && (forall i :: 18 <= i && i < len(d) ==> bdig(d, i)))
+
+//@ func (f *FIXUTCTimestamp) Read [C09,C14]
+//@   ensures @grammar err == nil ==> tsgrammar(bytes)
+//@   ensures @precision err == nil ==> f.Precision == (len(bytes) == 17 ? Seconds : (len(bytes) == 21 ? Millis : (len(bytes) == 24 ? Micros : Nanos)))
+//@   ensures @length len(bytes) != 17 && len(bytes) != 21 && len(bytes) != 24 && len(bytes) != 27 ==> err != nil
+
+//@ func (f FIXUTCTimestamp) Write [C14]
+//@   ensures @length len(result) == (f.Precision == Seconds ? 17 : (f.Precision == Micros ? 24 : (f.Precision == Nanos ? 27 : 21)))
